@@ -52,6 +52,7 @@ func (t *simTopo) publish(typ topoapi.EventType, o *topoapi.Object) {
 }
 
 func (t *simTopo) Create(ctx context.Context, object *topoapi.Object) error {
+	t.fuse.Gate("topo")
 	t.mu.Lock()
 	defer t.mu.Unlock()
 	if t.dead() {
@@ -74,6 +75,7 @@ func (t *simTopo) Create(ctx context.Context, object *topoapi.Object) error {
 }
 
 func (t *simTopo) Update(ctx context.Context, object *topoapi.Object) error {
+	t.fuse.Gate("topo")
 	t.mu.Lock()
 	defer t.mu.Unlock()
 	if t.dead() {
@@ -99,6 +101,7 @@ func (t *simTopo) Update(ctx context.Context, object *topoapi.Object) error {
 }
 
 func (t *simTopo) Get(ctx context.Context, id topoapi.ID) (*topoapi.Object, error) {
+	t.fuse.Gate("topo-read")
 	t.mu.Lock()
 	defer t.mu.Unlock()
 	if t.dead() {
@@ -158,6 +161,7 @@ func matchFilters(o *topoapi.Object, f *topoapi.Filters) bool {
 }
 
 func (t *simTopo) List(ctx context.Context, filters *topoapi.Filters) ([]topoapi.Object, error) {
+	t.fuse.Gate("topo-read")
 	t.mu.Lock()
 	defer t.mu.Unlock()
 	if t.dead() {
@@ -174,6 +178,7 @@ func (t *simTopo) List(ctx context.Context, filters *topoapi.Filters) ([]topoapi
 }
 
 func (t *simTopo) Delete(ctx context.Context, object *topoapi.Object) error {
+	t.fuse.Gate("topo")
 	t.mu.Lock()
 	defer t.mu.Unlock()
 	if t.dead() {
